@@ -4,8 +4,8 @@
 //!   C18 ser <c|u> <ty> <val>            => <hex bytes> <serialized_size>
 //!   C18 de <tag> <c|u><y|n> <ty> <hex>  => ok <val> <consumed> | err:<class> | panic | abort | timeout
 //!                                          | ok-huge <len> <consumed>
-//! A `de` whose input contains a length-like 8-byte window larger than the rest of the input (+ slack),
-//! or whose type has zero-width elements, runs in a CHILD PROCESS (this binary re-executed as
+//! A `de` whose input has a length prefix larger than the rest of the input (+ 4096 slack; found by
+//! walking the input along the type, `Tv::scan`) runs in a CHILD PROCESS (this binary re-executed as
 //! `c18 __child` through `sh -c 'ulimit -v 1048576; exec …'`, i.e. RLIMIT_AS = 1 GiB) with a 0.4 s
 //! per-case watchdog, so that an allocation abort (SIGABRT) is reported as `abort` and a runaway loop
 //! as `timeout` instead of killing the harness; all other `de` lines run in-process under
@@ -25,9 +25,9 @@ use std::sync::Arc;
 
 const MEM_LIMIT_KIB: u64 = 1 << 20; // ulimit -v, = 2^30 bytes  (DrvC18.limits.mem)
 const WATCHDOG_MS: u64 = 400;
-/// a `de` line goes to the child process only if some 8-byte window of the input, read as a
-/// little-endian length, exceeds the bytes that follow it by more than this slack (or the type has
-/// zero-width elements); everything else runs in-process under `catch_unwind`
+/// a `de` line goes to the child process only if a length prefix met while walking the input along the
+/// type (`Tv::scan`) exceeds the bytes that follow it by more than this slack; everything else runs
+/// in-process under `catch_unwind`
 const CHILD_SLACK: u64 = 4096;
 const HUGE_LEN: u64 = 1 << 16; // DrvC18.limits.steps
 
@@ -156,6 +156,16 @@ struct EmptyS {}
 struct Deep { inner: Named, v: Vec<TupS>, m: BTreeMap<u8, Gen2<u8, bool>>, w: (CompressedUnchecked<Ml>, [Ml; 2]) }
 
 // ------------------------------------------------------------------ type-directed syntax / generation
+fn take<'a>(r: &mut &'a [u8], n: usize) -> Result<&'a [u8], bool> {
+    if r.len() < n { return Err(false); }
+    let (a, b) = r.split_at(n);
+    *r = b;
+    Ok(a)
+}
+fn scan_len(r: &mut &[u8]) -> Result<u64, bool> {
+    let l = u64::from_le_bytes(take(r, 8)?.try_into().unwrap());
+    if l > r.len() as u64 + CHILD_SLACK { Err(true) } else { Ok(l) }
+}
 trait Tv: Sized {
     fn ty() -> String;
     fn gen(g: &mut Gen, d: u32) -> V;
@@ -163,6 +173,10 @@ trait Tv: Sized {
     fn show(&self) -> V;
     /// some container inside has more than HUGE_LEN items (only possible for zero-width items)
     fn huge(&self) -> u64 { 0 }
+    /// walk the input the way the deserialiser does, WITHOUT building anything: `Err(true)` as soon as a
+    /// length prefix exceeds the bytes that follow it by more than CHILD_SLACK (such a line is run in the
+    /// child process), `Err(false)` where the deserialiser stops with an error / end of input
+    fn scan(r: &mut &[u8], c: Compress) -> Result<(), bool>;
 }
 
 macro_rules! tv_int {
@@ -179,6 +193,7 @@ macro_rules! tv_int {
             }
             fn build(v: &V) -> Self { match v { V::I(i) => *i as $t, _ => panic!("harness: int") } }
             fn show(&self) -> V { V::I(*self as i128) }
+            fn scan(r: &mut &[u8], _c: Compress) -> Result<(), bool> { take(r, core::mem::size_of::<$t>())?; Ok(()) }
         }
     };
 }
@@ -190,6 +205,7 @@ impl Tv for bool {
     fn gen(g: &mut Gen, _d: u32) -> V { V::B(g.rng.next() & 1 == 1) }
     fn build(v: &V) -> Self { match v { V::B(b) => *b, _ => panic!("harness: bool") } }
     fn show(&self) -> V { V::B(*self) }
+    fn scan(r: &mut &[u8], _c: Compress) -> Result<(), bool> { if take(r, 1)?[0] > 1 { Err(false) } else { Ok(()) } }
 }
 impl Tv for Ml {
     fn ty() -> String { "ml".into() }
@@ -200,12 +216,19 @@ impl Tv for Ml {
     }
     fn build(v: &V) -> Self { match v { V::I(i) => Ml(*i as u8), _ => panic!("harness: ml") } }
     fn show(&self) -> V { V::I(self.0 as i128) }
+    fn scan(r: &mut &[u8], c: Compress) -> Result<(), bool> {
+        match c {
+            Compress::Yes => { take(r, 1)?; Ok(()) },
+            Compress::No => { let b = take(r, 2)?; if b[1] != 255 - b[0] { Err(false) } else { Ok(()) } },
+        }
+    }
 }
 impl<T> Tv for PhantomData<T> {
     fn ty() -> String { "ph".into() }
     fn gen(_g: &mut Gen, _d: u32) -> V { V::Seq(vec![]) }
     fn build(_v: &V) -> Self { PhantomData }
     fn show(&self) -> V { V::Seq(vec![]) }
+    fn scan(_r: &mut &[u8], _c: Compress) -> Result<(), bool> { Ok(()) }
 }
 const FRAGS: [&str; 14] = ["", "a", "z~", "h\u{e9}llo", "\u{65e5}\u{672c}\u{8a9e}", "\u{1f600}", "\u{0}", "\u{7f}\u{80}", "\u{7ff}\u{800}",
     "\u{ffff}\u{10000}", "\u{10ffff}", "\u{d7ff}\u{e000}", "\u{fffd}", " \t\n"];
@@ -221,6 +244,7 @@ impl Tv for String {
     }
     fn build(v: &V) -> Self { match v { V::S(b) => String::from_utf8(b.clone()).unwrap(), _ => panic!("harness: str") } }
     fn show(&self) -> V { V::S(self.as_bytes().to_vec()) }
+    fn scan(r: &mut &[u8], _c: Compress) -> Result<(), bool> { let l = scan_len(r)?; take(r, l as usize)?; Ok(()) }
 }
 impl Tv for BigUint {
     fn ty() -> String { "big".into() }
@@ -234,6 +258,7 @@ impl Tv for BigUint {
     }
     fn build(v: &V) -> Self { match v { V::Big(b) => b.clone(), V::I(i) => BigUint::from(*i as u128), _ => panic!("harness: big") } }
     fn show(&self) -> V { V::Big(self.clone()) }
+    fn scan(r: &mut &[u8], _c: Compress) -> Result<(), bool> { let l = scan_len(r)?; take(r, l as usize)?; Ok(()) }
 }
 impl<T: Tv> Tv for Option<T> {
     fn ty() -> String { format!("opt({})", T::ty()) }
@@ -241,12 +266,14 @@ impl<T: Tv> Tv for Option<T> {
     fn build(v: &V) -> Self { match v { V::None => None, V::Some(x) => Some(T::build(x)), _ => panic!("harness: opt") } }
     fn show(&self) -> V { match self { None => V::None, Some(x) => V::Some(Box::new(x.show())) } }
     fn huge(&self) -> u64 { self.as_ref().map(|x| x.huge()).unwrap_or(0) }
+    fn scan(r: &mut &[u8], c: Compress) -> Result<(), bool> { let b = take(r, 1)?[0]; if b > 1 { Err(false) } else if b == 1 { T::scan(r, c) } else { Ok(()) } }
 }
 impl Tv for () {
     fn ty() -> String { "tup()".into() }
     fn gen(_g: &mut Gen, _d: u32) -> V { V::Seq(vec![]) }
     fn build(_v: &V) -> Self {}
     fn show(&self) -> V { V::Seq(vec![]) }
+    fn scan(_r: &mut &[u8], _c: Compress) -> Result<(), bool> { Ok(()) }
 }
 macro_rules! tv_tuple {
     ($($T:ident : $i:tt),+) => {
@@ -256,6 +283,7 @@ macro_rules! tv_tuple {
             fn build(v: &V) -> Self { let s = seq(v); ($($T::build(&s[$i]),)+) }
             fn show(&self) -> V { V::Seq(vec![$(self.$i.show()),+]) }
             fn huge(&self) -> u64 { 0 $(.max(self.$i.huge()))+ }
+            fn scan(r: &mut &[u8], c: Compress) -> Result<(), bool> { $($T::scan(r, c)?;)+ Ok(()) }
         }
     };
 }
@@ -267,6 +295,7 @@ impl<T: Tv, const N: usize> Tv for [T; N] {
     fn build(v: &V) -> Self { let s = seq(v); core::array::from_fn(|i| T::build(&s[i])) }
     fn show(&self) -> V { V::Seq(self.iter().map(|x| x.show()).collect()) }
     fn huge(&self) -> u64 { self.iter().map(|x| x.huge()).max().unwrap_or(0) }
+    fn scan(r: &mut &[u8], c: Compress) -> Result<(), bool> { for _ in 0..N { T::scan(r, c)?; } Ok(()) }
 }
 macro_rules! tv_seq {
     ($C:ident, $fmt:expr, $push:ident) => {
@@ -275,6 +304,7 @@ macro_rules! tv_seq {
             fn gen(g: &mut Gen, d: u32) -> V { let n = g.len(d); V::Seq((0..n).map(|_| T::gen(g, d + 1)).collect()) }
             fn build(v: &V) -> Self { let mut c = $C::new(); for x in seq(v) { c.$push(T::build(x)); } c }
             fn show(&self) -> V { V::Seq(self.iter().map(|x| x.show()).collect()) }
+            fn scan(r: &mut &[u8], c: Compress) -> Result<(), bool> { let l = scan_len(r)?; for _ in 0..l { T::scan(r, c)?; } Ok(()) }
             fn huge(&self) -> u64 {
                 if self.len() as u64 > HUGE_LEN { self.len() as u64 } else { self.iter().map(|x| x.huge()).max().unwrap_or(0) }
             }
@@ -288,6 +318,7 @@ impl<T: Tv> Tv for LinkedList<T> {
     fn gen(g: &mut Gen, d: u32) -> V { let n = g.len(d); V::Seq((0..n).map(|_| T::gen(g, d + 1)).collect()) }
     fn build(v: &V) -> Self { let mut c = LinkedList::new(); for x in seq(v) { c.push_back(T::build(x)); } c }
     fn show(&self) -> V { V::Seq(self.iter().map(|x| x.show()).collect()) }
+    fn scan(r: &mut &[u8], c: Compress) -> Result<(), bool> { let l = scan_len(r)?; for _ in 0..l { T::scan(r, c)?; } Ok(()) }
     fn huge(&self) -> u64 {
         if self.len() as u64 > HUGE_LEN { self.len() as u64 } else { self.iter().map(|x| x.huge()).max().unwrap_or(0) }
     }
@@ -305,6 +336,7 @@ impl<T: Tv + Ord> Tv for BTreeSet<T> {
     }
     fn build(v: &V) -> Self { let mut c = BTreeSet::new(); for x in seq(v) { c.insert(T::build(x)); } c }
     fn show(&self) -> V { V::Seq(self.iter().map(|x| x.show()).collect()) }
+    fn scan(r: &mut &[u8], c: Compress) -> Result<(), bool> { let l = scan_len(r)?; for _ in 0..l { T::scan(r, c)?; } Ok(()) }
     fn huge(&self) -> u64 {
         if self.len() as u64 > HUGE_LEN { self.len() as u64 } else { self.iter().map(|x| x.huge()).max().unwrap_or(0) }
     }
@@ -322,33 +354,36 @@ impl<K: Tv + Ord, W: Tv> Tv for BTreeMap<K, W> {
     }
     fn build(v: &V) -> Self { let mut c = BTreeMap::new(); for e in seq(v) { let e = seq(e); c.insert(K::build(&e[0]), W::build(&e[1])); } c }
     fn show(&self) -> V { V::Seq(self.iter().map(|(k, w)| V::Seq(vec![k.show(), w.show()])).collect()) }
+    fn scan(r: &mut &[u8], c: Compress) -> Result<(), bool> { let l = scan_len(r)?; for _ in 0..l { K::scan(r, c)?; W::scan(r, c)?; } Ok(()) }
     fn huge(&self) -> u64 {
         if self.len() as u64 > HUGE_LEN { self.len() as u64 } else { self.iter().map(|(k, w)| k.huge().max(w.huge())).max().unwrap_or(0) }
     }
 }
 macro_rules! tv_wrap {
-    ($W:ident, $name:expr, $mk:expr, $($bound:tt)*) => {
+    ($W:ident, $name:expr, $mk:expr, $pin:expr, $($bound:tt)*) => {
         impl<T: Tv $($bound)*> Tv for $W<T> {
             fn ty() -> String { format!("{}({})", $name, T::ty()) }
             fn gen(g: &mut Gen, d: u32) -> V { T::gen(g, d) }
             fn build(v: &V) -> Self { $mk(T::build(v)) }
             fn show(&self) -> V { (**self).show() }
             fn huge(&self) -> u64 { (**self).huge() }
+            fn scan(r: &mut &[u8], c: Compress) -> Result<(), bool> { let p: Option<Compress> = $pin; T::scan(r, p.unwrap_or(c)) }
         }
     };
 }
-tv_wrap!(Arc, "arc", Arc::new,);
-tv_wrap!(Rc, "rc", Rc::new,);
-tv_wrap!(CompressedUnchecked, "cu", CompressedUnchecked,);
-tv_wrap!(UncompressedUnchecked, "uu", UncompressedUnchecked,);
-tv_wrap!(CompressedChecked, "cc", CompressedChecked,);
-tv_wrap!(UncompressedChecked, "uc", UncompressedChecked,);
+tv_wrap!(Arc, "arc", Arc::new, None,);
+tv_wrap!(Rc, "rc", Rc::new, None,);
+tv_wrap!(CompressedUnchecked, "cu", CompressedUnchecked, Some(Compress::Yes),);
+tv_wrap!(UncompressedUnchecked, "uu", UncompressedUnchecked, Some(Compress::No),);
+tv_wrap!(CompressedChecked, "cc", CompressedChecked, Some(Compress::Yes),);
+tv_wrap!(UncompressedChecked, "uc", UncompressedChecked, Some(Compress::No),);
 impl<T: Tv + Clone> Tv for Cow<'static, T> {
     fn ty() -> String { format!("cow({})", T::ty()) }
     fn gen(g: &mut Gen, d: u32) -> V { T::gen(g, d) }
     fn build(v: &V) -> Self { Cow::Owned(T::build(v)) }
     fn show(&self) -> V { self.as_ref().show() }
     fn huge(&self) -> u64 { self.as_ref().huge() }
+    fn scan(r: &mut &[u8], c: Compress) -> Result<(), bool> { T::scan(r, c) }
 }
 
 // derive structs: `st(field types as written)`
@@ -357,42 +392,49 @@ impl Tv for Named {
     fn gen(g: &mut Gen, d: u32) -> V { V::Seq(vec![u64::gen(g, d), <(u64, (u64, u64))>::gen(g, d)]) }
     fn build(v: &V) -> Self { let s = seq(v); Named { a: Tv::build(&s[0]), b: Tv::build(&s[1]) } }
     fn show(&self) -> V { V::Seq(vec![self.a.show(), self.b.show()]) }
+    fn scan(r: &mut &[u8], c: Compress) -> Result<(), bool> { <(u64, (u64, (u64, u64)))>::scan(r, c) }
 }
 impl Tv for TupS {
     fn ty() -> String { "st(u8,bool,opt(u16))".into() }
     fn gen(g: &mut Gen, d: u32) -> V { V::Seq(vec![u8::gen(g, d), bool::gen(g, d), <Option<u16>>::gen(g, d)]) }
     fn build(v: &V) -> Self { let s = seq(v); TupS(Tv::build(&s[0]), Tv::build(&s[1]), Tv::build(&s[2])) }
     fn show(&self) -> V { V::Seq(vec![self.0.show(), self.1.show(), self.2.show()]) }
+    fn scan(r: &mut &[u8], c: Compress) -> Result<(), bool> { <(u8, bool, Option<u16>)>::scan(r, c) }
 }
 impl Tv for Nested {
     fn ty() -> String { format!("st({},{},tup(),{})", <(u8, (u16, (u32,)))>::ty(), <Vec<u8>>::ty(), <(Ml, (bool, String))>::ty()) }
     fn gen(g: &mut Gen, d: u32) -> V { V::Seq(vec![<(u8, (u16, (u32,)))>::gen(g, d), <Vec<u8>>::gen(g, d + 1), V::Seq(vec![]), <(Ml, (bool, String))>::gen(g, d)]) }
     fn build(v: &V) -> Self { let s = seq(v); Nested(Tv::build(&s[0]), Tv::build(&s[1]), (), Tv::build(&s[3])) }
     fn show(&self) -> V { V::Seq(vec![self.0.show(), self.1.show(), V::Seq(vec![]), self.3.show()]) }
+    fn scan(r: &mut &[u8], c: Compress) -> Result<(), bool> { <((u8, (u16, (u32,))), Vec<u8>, (), (Ml, (bool, String)))>::scan(r, c) }
 }
 impl<T: Tv + CanonicalSerialize + CanonicalDeserialize + Send + Sync> Tv for Gen1<T> {
     fn ty() -> String { format!("st({},{},ph)", T::ty(), <Vec<T>>::ty()) }
     fn gen(g: &mut Gen, d: u32) -> V { V::Seq(vec![T::gen(g, d + 1), <Vec<T>>::gen(g, d + 1), V::Seq(vec![])]) }
     fn build(v: &V) -> Self { let s = seq(v); Gen1 { x: Tv::build(&s[0]), y: Tv::build(&s[1]), z: PhantomData } }
     fn show(&self) -> V { V::Seq(vec![self.x.show(), self.y.show(), V::Seq(vec![])]) }
+    fn scan(r: &mut &[u8], c: Compress) -> Result<(), bool> { <(T, Vec<T>)>::scan(r, c) }
 }
 impl<A: Tv + CanonicalSerialize + CanonicalDeserialize, B: Tv + CanonicalSerialize + CanonicalDeserialize> Tv for Gen2<A, B> {
     fn ty() -> String { format!("st({},tup({},{}))", A::ty(), B::ty(), A::ty()) }
     fn gen(g: &mut Gen, d: u32) -> V { V::Seq(vec![A::gen(g, d + 1), V::Seq(vec![B::gen(g, d + 1), A::gen(g, d + 1)])]) }
     fn build(v: &V) -> Self { let s = seq(v); let t = seq(&s[1]); Gen2(Tv::build(&s[0]), (Tv::build(&t[0]), Tv::build(&t[1]))) }
     fn show(&self) -> V { V::Seq(vec![self.0.show(), V::Seq(vec![self.1 .0.show(), self.1 .1.show()])]) }
+    fn scan(r: &mut &[u8], c: Compress) -> Result<(), bool> { <(A, (B, A))>::scan(r, c) }
 }
 impl Tv for UnitS {
     fn ty() -> String { "st()".into() }
     fn gen(_g: &mut Gen, _d: u32) -> V { V::Seq(vec![]) }
     fn build(_v: &V) -> Self { UnitS }
     fn show(&self) -> V { V::Seq(vec![]) }
+    fn scan(_r: &mut &[u8], _c: Compress) -> Result<(), bool> { Ok(()) }
 }
 impl Tv for EmptyS {
     fn ty() -> String { "st()".into() }
     fn gen(_g: &mut Gen, _d: u32) -> V { V::Seq(vec![]) }
     fn build(_v: &V) -> Self { EmptyS {} }
     fn show(&self) -> V { V::Seq(vec![]) }
+    fn scan(_r: &mut &[u8], _c: Compress) -> Result<(), bool> { Ok(()) }
 }
 impl Tv for Deep {
     fn ty() -> String {
@@ -403,12 +445,15 @@ impl Tv for Deep {
     }
     fn build(v: &V) -> Self { let s = seq(v); Deep { inner: Tv::build(&s[0]), v: Tv::build(&s[1]), m: Tv::build(&s[2]), w: Tv::build(&s[3]) } }
     fn show(&self) -> V { V::Seq(vec![self.inner.show(), self.v.show(), self.m.show(), self.w.show()]) }
+    fn scan(r: &mut &[u8], c: Compress) -> Result<(), bool> { <(Named, Vec<TupS>, BTreeMap<u8, Gen2<u8, bool>>, (CompressedUnchecked<Ml>, [Ml; 2]))>::scan(r, c) }
 }
 
 // ------------------------------------------------------------------ registry
 type SerFn = fn(&V, Compress) -> (Vec<u8>, usize);
 type DeFn = fn(&[u8], Compress, Validate) -> String;
-struct Entry { ty: String, zw: bool, big: usize, ser: SerFn, de: Option<DeFn>, gen: fn(&mut Gen, u32) -> V }
+type RiskFn = fn(&[u8], Compress) -> bool;
+fn risk_fn<T: Tv>(b: &[u8], c: Compress) -> bool { let mut r = b; T::scan(&mut r, c) == Err(true) }
+struct Entry { ty: String, zw: bool, big: usize, ser: SerFn, de: Option<DeFn>, risk: RiskFn, gen: fn(&mut Gen, u32) -> V }
 
 fn ser_fn<T: Tv + CanonicalSerialize>(v: &V, c: Compress) -> (Vec<u8>, usize) {
     let x = T::build(v);
@@ -465,16 +510,16 @@ fn de_fn<T: Tv + CanonicalDeserialize>(bytes: &[u8], c: Compress, v: Validate) -
 fn big_of(ty: &str) -> usize { if ty.matches('(').count() <= 1 { 200 } else { 24 } }
 fn entry<T: Tv + CanonicalSerialize + CanonicalDeserialize>() -> Entry {
     let ty = T::ty();
-    Entry { big: big_of(&ty), ty, zw: false, ser: ser_fn::<T>, de: Some(de_fn::<T>), gen: T::gen }
+    Entry { big: big_of(&ty), ty, zw: false, ser: ser_fn::<T>, de: Some(de_fn::<T>), risk: risk_fn::<T>, gen: T::gen }
 }
 fn entry_zw<T: Tv + CanonicalSerialize + CanonicalDeserialize>() -> Entry { let mut e = entry::<T>(); e.zw = true; e }
 fn entry_ser<T: Tv + CanonicalSerialize>() -> Entry {
     let ty = T::ty();
-    Entry { big: big_of(&ty), ty, zw: false, ser: ser_fn::<T>, de: None, gen: T::gen }
+    Entry { big: big_of(&ty), ty, zw: false, ser: ser_fn::<T>, de: None, risk: risk_fn::<T>, gen: T::gen }
 }
 fn entry_custom<T: Tv>(name: &str, ser: SerFn) -> Entry {
     let ty = format!("{}({})", name, T::ty());
-    Entry { big: big_of(&ty), ty, zw: false, ser, de: None, gen: T::gen }
+    Entry { big: big_of(&ty), ty, zw: false, ser, de: None, risk: risk_fn::<T>, gen: T::gen }
 }
 
 macro_rules! reg { ($v:ident; $($t:ty),* $(,)?) => { $( $v.push(entry::<$t>()); )* } }
@@ -631,17 +676,12 @@ const BAD_UTF8: [&[u8]; 22] = [&[0xff], &[0x80], &[0xbf], &[0xc0, 0x80], &[0xc1,
     &[0xf4, 0x90, 0x80, 0x80], &[0xf5, 0x80, 0x80, 0x80], &[0xf1, 0x80, 0x80], &[0xf8, 0x88, 0x80, 0x80, 0x80], &[0x61, 0xc2], &[0x61, 0xe1, 0x80, 0xe1],
     &[0xfe]];
 
-fn risky(b: &[u8]) -> bool {
-    let n = b.len();
-    if n < 8 { return false; }
-    (0..=n - 8).any(|p| u64::from_le_bytes(b[p..p + 8].try_into().unwrap()) > (n - p - 8) as u64 + CHILD_SLACK)
-}
 struct Ctx<'a> { out: &'a mut Out, run: &'a mut Runner, rng: Rng, thorough: bool, in_child: u64 }
 impl<'a> Ctx<'a> {
     fn de(&mut self, idx: usize, e: &Entry, tag: &str, c: Compress, v: Validate, bytes: &[u8]) {
         let m = mode_str(c, v);
         let h = hexs(bytes);
-        let r = if e.zw || risky(bytes) { self.in_child += 1; self.run.de(idx, m, &h) } else { (e.de.unwrap())(bytes, c, v) };
+        let r = if (e.risk)(bytes, c) { self.in_child += 1; self.run.de(idx, m, &h) } else { (e.de.unwrap())(bytes, c, v) };
         self.out.line(&format!("C18 de {} {} {} {}", tag, m, e.ty, h), &r);
     }
 }
